@@ -336,7 +336,7 @@ def run_scenarios(ctx, scenarios, name="prod", shards=8, timeout=1500):
         for s in scenarios:
             f.write(json.dumps(s) + "\n")
     rc, out, trace, sums = ctx.go_test_parallel("^TestVerifProducer$", cases, nproc=12, timeout=timeout, name=name,
-                                                only=["sim_cluster*", "prod_driver*"])
+                                                only=["sim_cluster*", "sim_fetch*", "prod_driver*"])
     ctx.need_go(rc, out, "producer scenarios (%s)" % name)
     rs = ctx.tlc_trace("ProducerObsTrace", "ProducerObsTrace.cfg", trace, shards=shards, name="trace-" + name)
     viols, stats = [], {}
@@ -397,6 +397,9 @@ def cause_of(tr, index):
     return cause
 
 
+EXTRA = None   # set by c18: violations + coverage of the consumer part, merged into the verdict
+
+
 def check(ctx, pid, families, mc_cfgs, level="model_checking", extra_assumptions=None, close_stride=0):
     """Common body of the producer checks: role 1 model checking, role 2 behaviours + deterministic
     families, execution on the real producer, role 3 validation; verdict from the property's clauses."""
@@ -422,12 +425,19 @@ def check(ctx, pid, families, mc_cfgs, level="model_checking", extra_assumptions
     viols, stats, trace, cases = run_scenarios(ctx, scenarios, name=pid.lower())
     mine = [v for v in viols if v["clause"] in clauses]
     other = sorted({v["clause"] for v in viols if v["clause"] not in clauses})
+    extra_cov = {}
+    if EXTRA:
+        mine += EXTRA["viols"]
+        extra_cov = EXTRA["cov"]
+        st += extra_cov.get("consumer_model_states", 0)
+        tr += extra_cov.get("consumer_model_transitions", 0)
     with open(cases) as f:
         samples = [json.loads(x) for x in f.readlines()[:2]]
     cov = {
         "states": st, "transitions": tr, "model_runs": det,
-        "traces_validated_against_impl": stats.get("traces", 0),
+        "traces_validated_against_impl": stats.get("traces", 0) + extra_cov.get("consumer_traces", 0),
         "events_validated": stats.get("events", 0),
+        "consumer_part": extra_cov,
         "samples": samples,
         "scenarios_by_family": fam_counts,
         "behaviours_from_model": gen_stats,
